@@ -299,6 +299,16 @@ def gen_cases(rng, tier):
             ([["digest", "d"]], [NONE], [["assign", "d", ["tuple", [S("zz"), NONE, NONE]]],
                                          ["assign", "d", ["tuple", [S("d41d8cd98f00b204e9800998ecf8427e"), NONE, NONE]]]])):
         cases.append({"kind": "seq", "fields": fields, "args": args, "ops": ops, "fresh": True})
+    # --- naive timestamps handed over in a process whose DISPLAY zone (FLOW_RECORD_TZ, read at import) is not UTC: the
+    # display zone is for printing - a naive value still means UTC, whatever door it comes through
+    for tz_ in ("Europe/Amsterdam", "Asia/Tokyo", "America/New_York", "NONE"):
+        c7a, c7b = [2021, 6, 1, 12, 0, 0, 0], [2020, 10, 25, 2, 30, 0, 5]
+        nv = lambda c: ["dt", c, "naive", 0]      # noqa: E731
+        cases.append({"kind": "seq", "fields": [["datetime", "a"], ["datetime[]", "l"]],
+                      "args": [nv(c7a), ["list", [nv(c7b), nv(c7a)]]],
+                      "ops": [["assign", "a", nv(c7b)], ["replace", [["a", nv(c7a)], ["l", ["list", [nv(c7a)]]]]],
+                              ["assign", "l", ["list", [nv(c7b), ["dt", c7a, "utc", 0]]]]],
+                      "fresh": True, "tz": tz_})
     # --- fixed histories
     cases.append({"kind": "seq", "fields": [["boolean", "a"], ["uint16", "b"]], "args": [["bool", 1], I(5)],
                   "ops": [["assign", "a", F(0.5)], ["assign", "a", I(0)], ["assign", "b", I(65536)], ["assign", "b", I(65535)],
@@ -422,7 +432,9 @@ def run_real(case):
                 "from harness.props import C05\n"
                 "print('\\n' + json.dumps(C05.run_real(json.loads(sys.stdin.read()))))\n") % (verif, os.environ.get("VERIF_REPO", "/repo"))
         p_ = subprocess.run([_sys.executable, "-c", code], input=json.dumps({k_: v_ for k_, v_ in case.items() if k_ != "fresh"}),
-                            capture_output=True, text=True, timeout=120, env=dict(os.environ, PYTHONDONTWRITEBYTECODE="1"))
+                            capture_output=True, text=True, timeout=120,
+                            env=dict(os.environ, PYTHONDONTWRITEBYTECODE="1",
+                                     **({"FLOW_RECORD_TZ": case["tz"]} if case.get("tz") else {})))
         if p_.returncode != 0:
             raise RuntimeError("fresh interpreter failed: " + p_.stderr[-300:])
         return json.loads(p_.stdout.strip().splitlines()[-1])
